@@ -5,6 +5,7 @@ package interp
 import (
 	"fmt"
 	"go/types"
+	"math"
 	"math/big"
 	"strconv"
 	"strings"
@@ -188,8 +189,14 @@ func floatTerm(v value) (*sym.Term, types.BasicKind, bool) {
 	case symFloat:
 		return x.t, x.k, true
 	case float64:
-		r := new(big.Rat)
-		if r.SetFloat64(x) == nil {
+		if math.IsNaN(x) || math.IsInf(x, 0) {
+			return nil, 0, false
+		}
+		// the real number a concrete float stands for is its shortest decimal
+		// representation (0.51 means 51/100): computed constants then sit exactly
+		// on the boundaries the real-valued reference uses
+		r, ok := new(big.Rat).SetString(strconv.FormatFloat(x, 'g', -1, 64))
+		if !ok {
 			return nil, 0, false
 		}
 		return sym.Rat(r), types.Float64, true
